@@ -597,3 +597,23 @@ LEVEL_TEXT += _ADD16
 _ADD22 = ' Borrowed: R02.1 (defaults are rendered through the packers).'
 EXPLANATION += _ADD22
 LEVEL_TEXT += _ADD22
+
+
+_run_before_r5 = run
+
+
+def run(repo, rep, tier):  # noqa: F811 -- round-5 shape rules appended to the rules above
+    _run_before_r5(repo, rep, tier)
+    if getattr(rep, "borrowed", False):
+        return
+    from ..core import round5 as _r5
+    _r5.override_consulted_first(repo, rep, "R06.14")
+    _r5.nonempty_schema_arrays(repo, rep, "R20.9")
+
+
+_ADDR5B = ' R20.9: schemaArray keywords (prefixItems, anyOf, oneOf, allOf) are never rendered as an empty list (`<list> or None`, a non-empty display, or a comprehension over union members).'
+EXPLANATION += _ADDR5B
+LEVEL_TEXT += _ADDR5B
+_ADDR5C = ' Borrowed: R06.14.'
+EXPLANATION += _ADDR5C
+LEVEL_TEXT += _ADDR5C
